@@ -546,29 +546,32 @@ def run(ctx):
             raise MachineryError(f"negative control {variant}: GraphAgrees was not violated")
     ctx.notes["negative_controls"] = "GraphAgrees violated under union_by_name, star_first_only, sub_ignored"
     # the one-definition space: a hash slice in quick, everything in thorough
-    frac = 4 if ctx.thorough else 120
+    # fixed universe: an eighth of the one-definition DAGs (hash % 8 == 0); thorough runs all of it, quick a fifteenth of it chosen by the seed
     for p in wide:
         d = prune(p["defs"])
         k = json.dumps(d, sort_keys=True)
-        if zlib.crc32(k.encode()) % frac == ctx.seed % frac:
+        hv = zlib.crc32(k.encode())
+        if hv % 8 == 0 and (ctx.thorough or (hv // 8) % 15 == ctx.seed % 15):
             dags.setdefault(k, d)
     fracd = 8
     for p in deep:
         d = prune(p["defs"])
         k = json.dumps(d, sort_keys=True)
-        if len(d) > 1 and zlib.crc32(k.encode()) % fracd == ctx.seed % fracd:
+        if len(d) > 1 and zlib.crc32(k.encode()) % fracd == 0:
             dags.setdefault(k, d)
     # simulated derivations of the large bound
     cfg = os.path.join(ctx.work, "lineage_sim.cfg")
     gen_cfg(cfg, {**base, "MaxDefs": 4, "MaxFrom": 2, "MaxProj": 3, "MaxRefs": 2, "Sample": "TRUE"}, "SPECIFICATION Spec\nINVARIANT GraphAgrees\nINVARIANT LeavesAreBase\nINVARIANT NamesDistinct\nINVARIANT UnionPositional\nACTION_CONSTRAINT Emit\nCHECK_DEADLOCK FALSE\n")
-    num = 2500 if ctx.thorough else 150
-    res = tlc.run("Lineage", cfg, ctx.work, workers=4, timeout_s=1800, simulate=f"num={num}", depth=24, seed=ctx.seed + 1, allow_violation=False)
-    ctx.model(res, "Lineage", cfg, f"simulation: {4 * num} derivations of up to 4 definitions; same invariants on every visited state")
+    # eight fixed simulation seeds, one worker each (deterministic); thorough runs all, quick a prefix of the one chosen by the seed
     n0 = len(dags)
-    for p in res.printed:
-        d = prune(p["defs"])
-        if len(d) > 1 or uses(d)["union"]:
-            dags.setdefault(json.dumps(d, sort_keys=True), d)
+    for r in (range(8) if ctx.thorough else [ctx.seed % 8]):
+        num = 2500 if ctx.thorough else 700
+        res = tlc.run("Lineage", cfg, ctx.work, workers=1, timeout_s=1800, simulate=f"num={num}", depth=24, seed=1001 + r, allow_violation=False)
+        ctx.model(res, "Lineage", cfg, f"simulation (seed {1001 + r}): {num} derivations of up to 4 definitions; same invariants on every visited state")
+        for p in res.printed:
+            d = prune(p["defs"])
+            if len(d) > 1 or uses(d)["union"]:
+                dags.setdefault(json.dumps(d, sort_keys=True), d)
     ctx.notes["dags"] = {"one_definition": n0, "simulated_multi_definition": len(dags) - n0}
     work = [dags[k] for k in sorted(dags)]
     chunks = [work[i::96] for i in range(96)]
